@@ -56,7 +56,7 @@ int main(void) {
 	size_t vl = 0; while (m->value[vl] && vl <= VL + 2) vl++;
 	CHECK(vl == VL, "the value has exactly the characters written in the source (none lost at end of input, none added)");
 	for (int i = 0; i < VL; i++) if ((size_t) i < vl) CHECK(m->value[i] == IN.v[i], "the value is the source text");
-	COVER(IN.v[1] == ' '); COVER((unsigned char) IN.v[VL - 1] >= 0x80);
+	COVER_OPT(IN.v[1] == ' '); COVER_OPT((unsigned char) IN.v[VL - 1] >= 0x80);
 	COVER(1);
 	return 0;
 }
